@@ -134,6 +134,20 @@ func detGenCfg(rng *rand.Rand, mode string) detCfg {
 			c.TMin, c.TMax = 2950, 3050
 		}
 		c.Preview = rng.Intn(4)
+	} else if rng.Intn(2) == 0 {
+		// limits that only concern the dynamic threshold: with a fixed threshold they must be ignored,
+		// also when the configured threshold lies outside them
+		switch rng.Intn(3) {
+		case 0:
+			c.TMin = c.Thresh + 60
+		case 1:
+			c.TMax = c.Thresh - 60
+			if c.TMax < 1 {
+				c.TMax = 1
+			}
+		case 2:
+			c.TMin, c.TMax = 2950, 3050
+		}
 	}
 	return c
 }
